@@ -203,9 +203,11 @@ func (w Window) Grid() []int64 {
 type EngineCfg struct {
 	Lookback      time.Duration // engine-wide (0 = default 5m)
 	QueryLookback time.Duration // per-query (0 = unset)
-	Optimizers    []logicalplan.Optimizer
-	NoFallback    bool
-	Timeout       time.Duration
+	// query options that do not set the lookback (what the HTTP API of Prometheus passes): the engine's applies
+	EmptyQueryOpts bool
+	Optimizers     []logicalplan.Optimizer
+	NoFallback     bool
+	Timeout        time.Duration
 	// fractions of a millisecond added to a range query's start and end (results are in
 	// milliseconds: the reference engine truncates, so these must not change anything)
 	StartFrac, EndFrac time.Duration
@@ -242,6 +244,8 @@ func makeQuery(e queryMaker, st storage.Queryable, cfg EngineCfg, qs string, w W
 	var qo *promql.QueryOpts
 	if cfg.QueryLookback != 0 {
 		qo = &promql.QueryOpts{LookbackDelta: cfg.QueryLookback}
+	} else if cfg.EmptyQueryOpts {
+		qo = &promql.QueryOpts{}
 	}
 	if w.Instant() {
 		return e.NewInstantQuery(st, qo, qs, time.UnixMilli(w.Start))
